@@ -5,8 +5,10 @@ become properties over the original slots on a harness-side subclass: assigning
 either parks the calling thread, reading `sys_modules` parks, reading
 `xsi_cache` returns a parking *view* of the dict object that is published at
 that moment (so `in`, `[]`, `clear()` park after the reference has been read,
-as in the real byte code); every binding model the index rebuild is about to
-add is a thread-local park point.  One release = one step of the Lean model
+as in the real byte code); `xsi_cache.values()` returns the real dict iterator
+wrapped so that the thread parks before every `next()` (inside such a scan the
+other hooks of that thread pass through); every binding model the index rebuild
+is about to add is a thread-local park point.  One release = one step of the Lean model
 (Ctx/Conc.lean).
 """
 from __future__ import annotations
@@ -29,6 +31,11 @@ class Scheduler:
         tid = getattr(self.local, "tid", None)
         if tid is None:
             return  # unmanaged thread (set-up code): pass through
+        if getattr(self.local, "in_scan", False) and name != "xsi.next":
+            # inside find_type_by_fields' scan the only park points are the
+            # iterator's next() calls: what happens for one visited entry (the
+            # local_names_match builds, evictions) is one step of the model
+            return
         ev = self.go[tid]
         with self.lock:
             self.state[tid] = "parked:" + name
@@ -126,9 +133,39 @@ class DictView:
         self.sched.hook("xsi.getitem")
         return self.real[k]
 
+    def __setitem__(self, k, v):
+        self.sched.hook("xsi.setitem")
+        self.real[k] = v
+
+    def __delitem__(self, k):
+        self.sched.hook("xsi.delitem")
+        del self.real[k]
+
     def clear(self):
         self.sched.hook("xsi.clear")
         self.real.clear()
+
+    def values(self):
+        """`for types in self.xsi_cache.values()`: the real dict iterator (it
+        raises RuntimeError when the dict changes size), with a park point
+        before every next() - installed from outside, no source hook."""
+        it = iter(self.real.values())  # created now: remembers the current size
+        sched = self.sched
+
+        def scan():
+            sched.local.in_scan = True
+            try:
+                while True:
+                    sched.hook("xsi.next")
+                    try:
+                        v = next(it)
+                    except StopIteration:
+                        return
+                    yield v
+            finally:
+                sched.local.in_scan = False
+
+        return scan()
 
     def __iter__(self):
         return iter(self.real)
